@@ -456,6 +456,11 @@ static void float_init(struct TextFormatter_LogWriter *tf, int places_in) {
   g_parts.decimalPlaces = in_i8();
   __CPROVER_assume(g_parts.decimalPlaces >= 0 && g_parts.decimalPlaces <= places_in && g_parts.decimal < P10u[g_parts.decimalPlaces]);
 }
+#if defined(CFG_nan) || defined(CFG_inf)
+#define FLOAT_OPTION_CONFIG 1
+#else
+#define FLOAT_OPTION_CONFIG 0
+#endif
 static _Bool is_nonfinite(double v) { return v != v || v > 1.7976931348623157e308 || v < -1.7976931348623157e308; }
 /* expected text for a finite value: ['-'] I [D] ['e' X] */
 static void check_float_text(double v) {
@@ -472,7 +477,7 @@ static void check_float_text(double v) {
     k++;
   }
   if (g_parts.exponent != 0) {
-#ifdef CANARY_FLOAT
+#if defined(CANARY_FLOAT) && !FLOAT_OPTION_CONFIG
     CHECK(g_out_len > k + 1 && OUT_IS(k, 'e') && OUT_IS(k + 1, 'X') && g_we_arg == g_parts.exponent + (g_parts.exponent == -7), "float: 'e' and exponent written iff exponent != 0");
 #else
     CHECK(g_out_len > k + 1 && OUT_IS(k, 'e') && OUT_IS(k + 1, 'X') && g_we_arg == g_parts.exponent, "float: 'e' and exponent written iff exponent != 0");
@@ -481,8 +486,53 @@ static void check_float_text(double v) {
   }
   CHECK(g_out_len == k, "float: nothing else is written");
 }
-static void check_null(void) {
+/* Non-finite values, per configuration (configs.json passes -DCFG_<config>=1):
+ *   def64  C02: "non-finite numbers as null in the default configuration";
+ *   nan    ARDUINOJSON_ENABLE_NAN=1: NaN is written as the word NaN (the word C10 admits on input when the option is enabled);
+ *          infinity is still null (ENABLE_INFINITY is off);
+ *   inf    ARDUINOJSON_ENABLE_INFINITY=1: +infinity is written Infinity, -infinity is written -Infinity (sign first, once);
+ *          NaN is still null (ENABLE_NAN is off).
+ * In nan / inf the canary of the three writefloat obligations is option-specific: it demands the default text (null) for NaN
+ * resp. the unsigned word for -infinity. */
+static _Bool out_null(void) { return g_out_len == 4 && OUT_IS(0, 'n') && OUT_IS(1, 'u') && OUT_IS(2, 'l') && OUT_IS(3, 'l'); }
+static _Bool out_NaN(void) { return g_out_len == 3 && OUT_IS(0, 'N') && OUT_IS(1, 'a') && OUT_IS(2, 'N'); }
+static _Bool out_Infinity(unsigned long k) { /* the word behind k bytes, nothing after it */
+  return g_out_len == k + 8 && OUT_IS(k, 'I') && OUT_IS(k + 1, 'n') && OUT_IS(k + 2, 'f') && OUT_IS(k + 3, 'i') && OUT_IS(k + 4, 'n') &&
+         OUT_IS(k + 5, 'i') && OUT_IS(k + 6, 't') && OUT_IS(k + 7, 'y');
+}
+/* option-specific cover goals (they must stand in the harness function itself) */
+#if defined(CFG_nan)
+#define NONFINITE_COVERS(v) COVER((v) != (v) && g_out_len == 3 && OUT_IS(0, 'N')); COVER((v) == (v) && (v) < 0.0 && is_nonfinite(v) && g_out_len == 4)
+#elif defined(CFG_inf)
+#define NONFINITE_COVERS(v) COVER((v) < 0.0 && is_nonfinite(v) && g_out_len == 9 && OUT_IS(0, '-')); COVER((v) > 0.0 && is_nonfinite(v) && g_out_len == 8 && OUT_IS(0, 'I')); COVER((v) != (v) && g_out_len == 4)
+#else
+#define NONFINITE_COVERS(v) ((void)0)
+#endif
+static void check_nonfinite(double v) {
+  _Bool is_nan = v != v;
+  _Bool neg = v < 0.0;
+  (void)is_nan; (void)neg;
+#if defined(CFG_nan)
+  if (is_nan) {
+#ifdef CANARY_FLOAT
+    CHECK(out_null(), "ENABLE_NAN: NaN is written as NaN");
+#else
+    CHECK(out_NaN(), "ENABLE_NAN: NaN is written as NaN");
+#endif
+  } else CHECK(out_null(), "ENABLE_NAN without ENABLE_INFINITY: an infinity is written as null");
+#elif defined(CFG_inf)
+  if (is_nan) CHECK(out_null(), "ENABLE_INFINITY without ENABLE_NAN: NaN is written as null");
+  else if (!neg) CHECK(out_Infinity(0), "ENABLE_INFINITY: +infinity is written as Infinity");
+  else {
+#ifdef CANARY_FLOAT
+    CHECK(out_Infinity(0), "ENABLE_INFINITY: -infinity is written as -Infinity (one sign, first)");
+#else
+    CHECK(OUT_IS(0, '-') && out_Infinity(1), "ENABLE_INFINITY: -infinity is written as -Infinity (one sign, first)");
+#endif
+  }
+#else
   CHECK(g_out_len == 4 && OUT_IS(0, 'n') && OUT_IS(1, 'u') && OUT_IS(2, 'l') && OUT_IS(3, 'l'), "non-finite numbers are written as null in the default configuration");
+#endif
   CHECK(g_df_calls == 0, "non-finite numbers are not decomposed");
 }
 void h_float(void) {
@@ -493,7 +543,8 @@ void h_float(void) {
   double v = in_f64();
   TextFormatter_LogWriter__writeFloat(&tf, v, places);
   COVER(v != v); COVER(v > 1.7976931348623157e308); COVER(v < -1.7976931348623157e308); COVER(v == 0.0);
-  if (is_nonfinite(v)) check_null();
+  NONFINITE_COVERS(v);
+  if (is_nonfinite(v)) check_nonfinite(v);
   else {
     CHECK(g_df_places == places, "float: decimalPlaces handed over unchanged");
     check_float_text(v);
@@ -506,7 +557,8 @@ void h_float_double(void) {
   double v = in_f64();
   TextFormatter_LogWriter__writeFloat_double(&tf, v);
   COVER(is_nonfinite(v)); COVER(!is_nonfinite(v));
-  if (is_nonfinite(v)) check_null();
+  NONFINITE_COVERS(v);
+  if (is_nonfinite(v)) check_nonfinite(v);
   else {
     CHECK(g_df_places == 9, "double: 9 decimal places requested");
     check_float_text(v);
@@ -518,7 +570,8 @@ void h_float_float(void) {
   float v = in_f32();
   TextFormatter_LogWriter__writeFloat_float(&tf, v);
   COVER(is_nonfinite(v)); COVER(!is_nonfinite(v));
-  if (is_nonfinite((double)v)) check_null();
+  NONFINITE_COVERS((double)v);
+  if (is_nonfinite((double)v)) check_nonfinite((double)v);
   else {
     CHECK(g_df_places == 6, "float: 6 decimal places requested");
     check_float_text((double)v);
